@@ -69,7 +69,7 @@ def emit_run(tier, seed, d, prior=0):
     per = 40 if tier == 'quick' else 1200
     with ThreadPoolExecutor(16) as ex:
         list(ex.map(run_shard, [(d, seed, per, i, 'wild' if i % 3 == 1 else 'rich', prior) for i in range(nshards)]))
-    total = 0; files_equal = 0; nontriv = set(); feats = {}; samples = []; disagreements = []; findings = []
+    total = 0; files_equal = 0; nontriv = set(); feats = {}; samples = []; disagreements = []; findings = []; case_dis = {}; outcome_dis = set()
     for i in range(nshards):
         try:
             wf = {}
@@ -78,7 +78,7 @@ def emit_run(tier, seed, d, prior=0):
         except FileNotFoundError:
             disagreements.append({'what': f'shard {i} produced no output', 'err': open(f'{d}/eerr_{i}.txt').read()[-800:]})
             continue
-        agree = {}
+        agree = {}; model_kind = {}
         for cid, w in wf.items():
             if isinstance(cid, tuple):
                 # Spec/WfSpec.v spec_ok (depth 60) on the document itself: C01_extraction_total applies where it holds
@@ -98,33 +98,64 @@ def emit_run(tier, seed, d, prior=0):
                                       'model': rm.get(cid), 'spec': dehex(cases.get(cid, ''))[:5000]})
         for cid in ri:
             a, b = ri[cid], rm.get(cid)
-            na = 'ok' if a == 'ok' else a.split(':', 1)[-1]
-            nb = 'ok' if b == 'ok' else (b or '?').split(':', 1)[-1]
-            # the model's fuel exhaustion is the real process overflowing its stack
-            na = 'diverge' if na == 'stack_overflow' else na
+            # outcomes are compared as a small enum: a crate / a failure (panic or error exit, whatever its message) /
+            # runaway recursion (the model's fuel exhaustion is the real process overflowing its stack) / time limit.
+            # WHY a generation failed is the model's error kind; the text of the implementation's panic message is
+            # not an observation (it may be reworded freely)
+            def coarse(x):
+                if x == 'ok': return 'ok'
+                k = (x or '?').split(':', 1)[-1]
+                if k in ('stack_overflow', 'diverge'): return 'diverge'
+                if (x or '').startswith('timeout'): return 'timeout'
+                return 'fail'
+            na, nb = coarse(a), coarse(b)
+            if na == 'fail' and nb == 'fail':
+                model_kind[cid] = (b or '?').split(':', 1)[-1]
             agree[cid] = (na == nb)
+            if na != nb:
+                outcome_dis.add(cid)
             if na != nb and len(disagreements) < 40:
                 disagreements.append({'case': cid, 'what': 'outcome of the generation', 'impl': a, 'model': b, 'spec': dehex(cases.get(cid, ''))[:5000]})
         keys = set(fi) | set(fm)
-        for (cid, p) in keys:
+        paths_i = {}; paths_m = {}
+        for (cid, p) in fi:
+            paths_i.setdefault(cid, set()).add(p.split('#', 1)[0])
+        for (cid, p) in fm:
+            paths_m.setdefault(cid, set()).add(p.split('#', 1)[0])
+
+        def note(cid, x):
+            case_dis.setdefault(cid, []).append({k: x[k] for k in ('file', 'section', 'docs_only', 'presence', 'docs_differ')})
+            if len(disagreements) < 400:
+                disagreements.append(x)
+            else:
+                disagreements.append(None)
+        for (cid, p) in sorted(keys):
             if ri.get(cid) != 'ok' or rm.get(cid) != 'ok':
                 continue
             a, b = fi.get((cid, p)), fm.get((cid, p))
             if a == b:
                 files_equal += 1
                 continue
+            path, sec = (p.split('#', 1) + ['*'])[:2]
             agree[cid] = False
-            ta = text_of(a).split('\n') if a else ['<file not written by the implementation>']
-            tb = text_of(b).split('\n') if b else ['<file not predicted by the model>']
+            if path not in paths_i.get(cid, ()) or path not in paths_m.get(cid, ()):
+                # the whole file exists on one side only: one entry per file
+                if sec == '*':
+                    note(cid, {'case': cid, 'file': path, 'section': '*', 'docs_only': False, 'docs_differ': True, 'presence': True, 'first_differing_line': 0,
+                               'impl': ['<file written by the implementation>' if a else '<file not written by the implementation>'],
+                               'model': ['<file predicted by the model>' if b else '<file not predicted by the model>'],
+                               'spec': dehex(cases.get(cid, ''))[:5000] if len(disagreements) < 40 else ''})
+                continue
+            ta = text_of(a).split('\n') if a else []
+            tb = text_of(b).split('\n') if b else []
+            isdoc = lambda x: x.lstrip().startswith(('///', '//!'))
             # does the difference lie in documentation comments only? (prettyplease prints #[doc] as /// or //! lines)
-            docs_only = bool(a and b) and [x for x in ta if not x.lstrip().startswith(('///', '//!'))] == [x for x in tb if not x.lstrip().startswith(('///', '//!'))]
-            if len(disagreements) < 400:
-                k = next((j for j, (x, y) in enumerate(zip(ta, tb)) if x != y), min(len(ta), len(tb)))
-                disagreements.append({'case': cid, 'file': p, 'docs_only': docs_only, 'presence': not (a and b), 'first_differing_line': k,
-                                      'impl': ta[max(0, k - 2):k + 3], 'model': tb[max(0, k - 2):k + 3],
-                                      'spec': dehex(cases.get(cid, ''))[:5000] if len(disagreements) < 40 else ''})
-            else:
-                disagreements.append(None)
+            docs_only = [x for x in ta if not isdoc(x)] == [x for x in tb if not isdoc(x)]
+            docs_differ = [x.strip() for x in ta if isdoc(x)] != [x.strip() for x in tb if isdoc(x)]
+            k = next((jj for jj, (x, y) in enumerate(zip(ta, tb)) if x != y), min(len(ta), len(tb)))
+            note(cid, {'case': cid, 'file': path, 'section': sec, 'docs_only': docs_only, 'docs_differ': docs_differ, 'presence': False, 'first_differing_line': k,
+                       'impl': ta[max(0, k - 2):k + 3] or ['<section absent>'], 'model': tb[max(0, k - 2):k + 3] or ['<section absent>'],
+                       'spec': dehex(cases.get(cid, ''))[:5000] if len(disagreements) < 40 else ''})
         for l in open(f'{d}/efeatures_{i}.txt'):
             cid, fs = l.rstrip('\n').split('\t')
             total += 1
@@ -137,45 +168,71 @@ def emit_run(tier, seed, d, prior=0):
                 samples.append({'case': cid, 'features': fs.split(','), 'config_and_spec': dehex(cases.get(cid, ''))[:1500]})
         for l in open(f'{d}/eoracle_{i}.txt'):
             cid, p, cls, msg = l.rstrip('\n').split('\t', 3)
-            if not agree.get(cid, False):
-                cls = ''   # a known class only counts where the model predicts exactly what the implementation did
+            if cls.startswith('panic_') and cid in model_kind:
+                cls = 'panic_' + model_kind[cid]
             findings.append((cid, p, cls, msg, dehex(cases.get(cid, ''))[:5000]))
+    CASE_DIS.clear(); CASE_DIS.update(case_dis); OUTCOME_DIS.clear(); OUTCOME_DIS.update(outcome_dis)
     return total, len(nontriv), feats, samples, disagreements, findings, files_equal
 
 
-# Which emitted files (and which part of them) a property's tie to the code rests on. A disagreement between the model's
-# predicted file and the implementation's file outside this view does not touch the property's theorems: it is counted
-# in the evidence (`disagreements_outside_view`) and judged by the properties whose view it falls in (C02 sees all).
+# Which sections of which emitted files a property's tie to the code rests on. Every file is cut into sections by the
+# harness (one per top-level item, keyed by what the item is; `use`/`mod` lines as sorted sets; lint attributes dropped;
+# the exact whole file is the section `*`). A disagreement between the model's predicted section and the implementation's
+# outside this view does not touch the property's theorems: it is counted in the evidence (`disagreements_outside_view`)
+# and judged by the properties whose view it falls in (C02 sees every file exactly).
+CASE_DIS = {}      # case id -> section-level disagreements of the last emit_run
+OUTCOME_DIS = set()  # case ids whose generation outcome differs between model and implementation
+ITEM = r'(?!\*$).*'    # any item section, not the whole-file section
+OPFILE = r'src/request/(?!mod\.rs)'
+MODELFILE = r'src/model/(?!mod\.rs)'
+
+
+def V(*pats, docs=False, presence=False, docs_lines_only=False):
+    return dict(pats=[(re.compile(a), re.compile(b)) for a, b in pats], docs=docs, presence=presence, docs_lines_only=docs_lines_only,
+                text=[f'{a} :: {b}' for a, b in pats])
+
+
 VIEW = {
-    'C01': dict(files=(), docs=False, presence=True),                                   # outcome and the set of files
-    'C02': dict(files=('',), docs=True, presence=True),                                  # everything
-    'C03': dict(files=('src/request/', 'src/lib.rs'), docs=False, presence=False),
-    'C04': dict(files=('src/model/', 'src/serde.rs'), docs=False, presence=False),
-    'C05': dict(files=('src/request/', 'src/lib.rs'), docs=False, presence=False),
-    'C06': dict(files=('src/request/', 'src/lib.rs', 'examples/'), docs=False, presence=True),
-    'C07': dict(files=('src/model/', 'src/request/', 'src/lib.rs'), docs=False, presence=True),
-    'C08': dict(files=('src/model/', 'src/request/', 'src/lib.rs'), docs=False, presence=False),
-    'C13': dict(files=('',), docs=False, presence=True),
-    'C14': dict(files=('src/request/', 'src/lib.rs'), docs=False, presence=False),
-    'C15': dict(files=('src/lib.rs',), docs=False, presence=False),
-    'C16': dict(files=('examples/',), docs=False, presence=True),
-    'C17': dict(files=('',), docs=True, presence=False),
-    'C18': dict(files=('src/model/', 'src/request/'), docs=False, presence=False),
+    'C01': V(presence=True),                                                        # outcome and the set of files
+    'C02': V(('.*', r'\*$'), docs=True, presence=True),                              # every file, exactly
+    'C03': V((OPFILE, r'(struct |impl )'), (r'src/lib\.rs', r'(struct FluentRequest|struct \w+Client$|impl \w+Client)')),
+    'C04': V((MODELFILE, r'(struct |enum |type |impl .*(Serialize|Deserialize|Display|FromStr|Deref))'), (r'src/serde\.rs', ITEM)),
+    'C05': V((OPFILE, r'(struct |impl )')),
+    'C06': V((r'src/request/', r'(struct |impl |mod$|use$)'), (r'src/lib\.rs', r'mod$'), (r'examples/', r'fn main'), presence=True),
+    'C07': V((r'src/model/', r'(struct |enum |type |mod$|use$)'), (OPFILE, r'(struct |impl )'), presence=True),
+    'C08': V((MODELFILE, r'(struct |enum |type )'), (OPFILE, r'(struct |impl )')),
+    'C09': V(),                                                                     # decided by the determinism run alone
+    'C13': V((r'src/(model|request)/', ITEM), (r'examples/', ITEM), (r'src/lib\.rs', r'(struct |enum |impl \w+(Client|Authentication)|fn |mod$)'), presence=True),
+    'C14': V((OPFILE, r'impl .*IntoFuture'), (r'src/lib\.rs', r'(enum \w+Authentication|impl \w+Authentication|impl \w+Client|struct \w+Client$|struct FluentRequest|fn )')),
+    'C15': V((r'src/lib\.rs', r'(fn default_http_client|impl \w+Client)')),
+    'C16': V((r'examples/', ITEM), presence=True),
+    'C17': V(('.*', ITEM), docs=True, docs_lines_only=True),                          # the documentation lines of every item
+    'C18': V((r'src/(model|request)/(?!mod\.rs)', r'(struct |enum |type )')),
 }
 
 
 def in_view(prop, x):
-    """is this file-level disagreement part of what ties the model to the code for `prop`?"""
+    """is this section-level disagreement part of what ties the model to the code for `prop`?"""
     v = VIEW.get(prop)
     if v is None or x is None or 'file' not in x:
         return True
     if x.get('presence'):
-        return v['presence'] or any(x['file'].startswith(f) for f in v['files'])
-    if not any(x['file'].startswith(f) for f in v['files']):
+        return v['presence']
+    if not any(a.match(x['file']) and b.search(x.get('section', '*')) for a, b in v['pats']):
         return False
+    if v['docs_lines_only']:
+        return bool(x.get('docs_differ'))
     if x.get('docs_only') and not v['docs']:
         return False
     return True
+
+
+def agrees_in_view(prop, cid):
+    """the model predicts what the implementation did on this case, as far as `prop` looks: a failure in a known class
+    is the KNOWN finding only then; elsewhere it is a new failing input"""
+    if cid in OUTCOME_DIS:
+        return False
+    return not any(in_view(prop, x) for x in CASE_DIS.get(cid, ()))
 
 
 def compile_run(tier, seed, d):
@@ -648,6 +705,8 @@ def run(prop, tier, seed, extra_props=(), also_hir=False, compile_layer=False, d
         for cid, p, cls, msg, spec in findings:
             if p not in mine:
                 continue
+            if (p, cls) in known_map and not agrees_in_view(p, cid):
+                cls = ''
             if (p, cls) in known_map:
                 known_seen.setdefault(known_map[(p, cls)], []).append((cid, msg))
             else:
@@ -678,7 +737,7 @@ def run(prop, tier, seed, extra_props=(), also_hir=False, compile_layer=False, d
                evaluations=total, distinct_nontrivial=nontriv, files_compared_equal=files_equal,
                rule='corpus then generated (spec, config) pairs: specs as in the HIR engine (rich profile; every third shard wild), configs = service names of one or more words, 0-4 derive strings over simple/nested/padded/duplicate/un-tokenisable, examples on/off; every file of every emitted crate is compared with the predicted file; non-trivial = at least one feature fired; distinct by input text',
                samples=samples, feature_histogram=feats, disagreements_checked=len(disagreements), oracle_failures=len(oracle),
-               disagreements_outside_view=dict(count=len(outside_view), view=VIEW.get(prop), first=[{k: x[k] for k in ('case', 'file', 'docs_only')} for x in outside_view if x][:5]),
+               disagreements_outside_view=dict(count=len(outside_view), view=(VIEW.get(prop) or {}).get('text'), first=[{k: x[k] for k in ('case', 'file', 'section', 'docs_only')} for x in outside_view if x][:5]),
                known_findings_seen={k: len(v) for k, v in known_seen.items()}, proof_problems=ps['problems'], hir_level=hir_part, compile_level=compile_part, determinism_level=det_part, execution_level=exec_part,
                totality_hypotheses=dict(WF, note='Spec/Wf.v hir_ok (depth 60) evaluated on every table the model extracts: t = C01_emission_total applies, f = it does not (f_but_generated: the implementation produced a crate anyway), x = extraction itself returned an error; spec_ok_t / spec_ok_f = Spec/WfSpec.v spec_ok (depth 60) on the document, t = C01_extraction_total applies; both_t = both theorems apply, the whole pipeline is proved total on that input'))
     write_evidence(prop, tier, seed, 'proof', cov, time.time() - t0, len(out.violations),
